@@ -43,6 +43,20 @@ def execute(sc, keep=False):
                 except OSError as e:
                     results[st["id"]] = execu.Outcome("", str(e), 1, "error")
                 continue
+            if st.get("op") == "write":
+                # an edit: new content, and a modification time later than that of every file next to it (what an editor does a
+                # moment after a build - without sleeping through the granularity of the clock)
+                try:
+                    path = os.path.join(cwd, st["path"])
+                    with open(path, "w", encoding="utf-8") as fh:
+                        fh.write(st["content"])
+                    d = os.path.dirname(path)
+                    newest = max(os.stat(os.path.join(d, n)).st_mtime for n in os.listdir(d))
+                    os.utime(path, (newest + 2.0, newest + 2.0))
+                    results[st["id"]] = execu.Outcome("", "", 0, "ok")
+                except OSError as e:
+                    results[st["id"]] = execu.Outcome("", str(e), 1, "error")
+                continue
             if st.get("only_if_ok") and results[st["only_if_ok"]].klass != "ok":
                 results[st["id"]] = execu.Outcome("", "skipped", -999, "skipped")
                 continue
